@@ -579,8 +579,8 @@ func (s *State) evalIndexRangeExpression(left object.Object, leftIdx, rightIdx a
 	if l > r {
 		return s.NewError("range index invalid: left greater then right")
 	}
-	l = min(l, int64(num))
-	r = min(r, int64(num))
+	l = max(min(l, int64(num)), 0) // clamp: a negative index beyond the start (e.g. "abc"[-5:2]) starts at 0.
+	r = max(min(r, int64(num)), 0)
 	switch left.Type() {
 	case object.STRING:
 		str := left.(object.String).Value
